@@ -352,6 +352,10 @@ func init() {
 					}
 					mm := d.Meta()
 					getBytes, getS, getB = mm.GetBytes, mm.GetEncryptedString, mm.GetEncryptedBytes
+					if jb.pos%2 == 1 {
+						cl := mm.WriteableClone() // the only way to a writeable Meta from a token
+						getBytes, getS, getB = cl.GetBytes, cl.GetEncryptedString, cl.GetEncryptedBytes
+					}
 				case "inv":
 					o1, o2 := invocation.WithEncryptedMetaBytes("s1", pt, ak), invocation.WithEncryptedMetaBytes("s2", pt, ak)
 					if c.API == "string" {
@@ -380,8 +384,32 @@ func init() {
 					}
 					mm := v.Meta()
 					getBytes, getS, getB = mm.GetBytes, mm.GetEncryptedString, mm.GetEncryptedBytes
+					if jb.pos%2 == 1 {
+						cl := mm.WriteableClone()
+						getBytes, getS, getB = cl.GetBytes, cl.GetEncryptedString, cl.GetEncryptedBytes
+					}
 				}
 			}()
+			// half of the behaviours read through a CLONE of the collection (Clone / WriteableClone): a copy holds what the
+			// original holds
+			viaClone := jb.pos%2 == 1
+			if viaClone && addErr == nil && getBytes != nil {
+				func() {
+					defer func() {
+						if r := recover(); r != nil {
+							addErr = fmt.Errorf("panic while cloning: %v", r)
+						}
+					}()
+					switch c.Carrier {
+					case "meta":
+						cl := m.Clone()
+						getBytes, getS, getB = cl.GetBytes, cl.GetEncryptedString, cl.GetEncryptedBytes
+					case "metaro":
+						cl := m.ReadOnly().WriteableClone().ReadOnly()
+						getBytes, getS, getB = cl.GetBytes, cl.GetEncryptedString, cl.GetEncryptedBytes
+					}
+				}()
+			}
 			goodAdd := c.AK == "good1" || c.AK == "good2" || c.AK == "onehot"
 			if goodAdd {
 				rep.nontrivial(string(raw))
@@ -400,6 +428,11 @@ func init() {
 			s2, e2 := getBytes("s2")
 			if e1 != nil || e2 != nil {
 				rep.violation(json.RawMessage(raw), "stored ciphertext", fmt.Sprint(e1, e2), "the stored value is not retrievable as bytes")
+				continue
+			}
+			if len(s1) < 24+16+len(pt) || len(s2) < 24+16+len(pt) {
+				rep.violation(json.RawMessage(raw), fmt.Sprintf("a ciphertext of %d bytes (nonce, tag, data)", 24+16+len(pt)), fmt.Sprintf("%d and %d bytes", len(s1), len(s2)),
+					"the stored value is shorter than a ciphertext of the plaintext can be (read through a clone: "+fmt.Sprint(viaClone)+")")
 				continue
 			}
 			rep.sample(map[string]any{"case": json.RawMessage(raw), "stored_len": len(s1), "plaintext_len": len(pt)})
@@ -439,6 +472,10 @@ func init() {
 					return err
 				}
 				gS, gB = tm.GetEncryptedString, tm.GetEncryptedBytes
+				if viaClone {
+					tc := tm.ReadOnly().WriteableClone()
+					gS, gB = tc.GetEncryptedString, tc.GetEncryptedBytes
+				}
 			}
 			var got []byte
 			var gerr error
